@@ -108,10 +108,15 @@ def build_pool(seed):
         nxt = rootchain.signed_root(v + i + 1, ks2, t2, list(signers.values()), rng, km_keys=[K[5]], junk=i % 2)
         roots.append(nxt)
         ks, t = ks2, t2
+    # delegating-SHAPED documents whose type is not a supported one (arbitrary signed payloads for the verifier)
+    odd = []
+    for tname in ("mirror_mgr", "pkg_mgr", "Root", ""):
+        od = gmd.sign_env(gmd.envelope(gmd.delegating(tname, {"pkg_mgr": gmd.delegation([K[3]], 1)})), [K[4], K[5]], False, rng)
+        odd.append(od)
     km_signed = gmd.delegating("key_mgr", {"pkg_mgr": gmd.delegation([K[4]], 1)})
     km = gmd.sign_env(gmd.envelope(km_signed), [K[5]], False, rng)
     pkg = gmd.sign_env(gmd.envelope(payloads[0]), [K[4]], False, rng)
-    return {"K": K, "payloads": payloads, "envs": envs, "auths": auths, "roots": roots, "km": km, "pkg": pkg}
+    return {"K": K, "payloads": payloads, "envs": envs, "auths": auths, "roots": roots, "km": km, "pkg": pkg, "odd": odd}
 
 
 def build_calls(pool, seed, n):
@@ -140,8 +145,13 @@ def build_calls(pool, seed, n):
         elif r < 0.85:
             which = rng.choice(["km", "pkg", "root_as_km", "km_as_root", "unknown"])
             calls.append(("verify_delegation", which, rng.randrange(nr)))
-        elif r < 0.9:
-            calls.append(("checkformat", rng.choice(["root", "km", "env"]), rng.randrange(max(nr, ne))))
+        elif r < 0.88:
+            calls.append(("checkformat", rng.choice(["root", "km", "env", "odd"]), rng.randrange(max(nr, ne))))
+        elif r < 0.91:
+            # construction calls (valid and failing) for assorted type names, interleaved with the verifications
+            calls.append(("build", rng.choice(["mirror_mgr", "pkg_mgr", "root", "key_mgr", "Root", ""]), rng.choice(["ok", "bad_timestamp", "bad_delegations"])))
+            calls.append(("verify_delegation", "odd_as_pkg", rng.randrange(4)))
+            calls.append(("verify_delegation", "odd_as_own", rng.randrange(4)))
         elif r < 0.95:
             calls.append(("canonserialize", rng.randrange(len(pool["payloads"]))))
         else:
@@ -167,11 +177,26 @@ def do_call(lib, pool, c):
             o = boundary.call(lib, A.verify_delegation, "key_mgr", pool["roots"][(c[2] + 1) % len(pool["roots"])], root, gpg=True)
         elif c[1] == "km_as_root":
             o = boundary.call(lib, A.verify_delegation, "root", pool["km"], root)
+        elif c[1] in ("odd_as_pkg", "odd_as_own"):
+            od = pool["odd"][c[2] % len(pool["odd"])]
+            role = "pkg_mgr" if c[1] == "odd_as_pkg" else od["signed"]["type"]
+            o = boundary.call(lib, A.verify_delegation, role, od, pool["km"])
         else:
             o = boundary.call(lib, A.verify_delegation, "nope", pool["km"], root)
     elif k == "checkformat":
-        obj = {"root": pool["roots"][c[2] % len(pool["roots"])], "km": pool["km"], "env": pool["envs"][c[2] % len(pool["envs"])]["env"]}[c[1]]
+        obj = {"root": pool["roots"][c[2] % len(pool["roots"])], "km": pool["km"], "env": pool["envs"][c[2] % len(pool["envs"])]["env"],
+               "odd": pool["odd"][c[2] % len(pool["odd"])]}[c[1]]
         o = boundary.call(lib, C.checkformat_delegating_metadata, obj)
+    elif k == "build":
+        kw = {"metadata_type": c[1], "delegations": {"x": {"pubkeys": [pool["K"][0].hex], "threshold": 1}}, "version": 3,
+              "timestamp": "2021-01-01T00:00:00Z", "expiration": "2031-01-01T00:00:00Z"}
+        if c[2] == "bad_timestamp":
+            kw["timestamp"] = "yesterday"
+        elif c[2] == "bad_delegations":
+            kw["delegations"] = {"x": {"pubkeys": ["not a key"], "threshold": 0}}
+        o = boundary.call(lib, lib.metadata_construction.build_delegating_metadata, **kw)
+        if o.accepted:
+            return "R:" + boundary.value_fingerprint(o.value)[:16]
     elif k == "canonserialize":
         o = boundary.call(lib, C.canonserialize, pool["payloads"][c[1]])
         if o.accepted:
@@ -373,7 +398,7 @@ def run_history(spec, rec, lib):
 
 
 def pool_objects(pool):
-    return [pool["payloads"], [e["env"] for e in pool["envs"]], pool["auths"], pool["roots"], pool["km"], pool["pkg"]]
+    return [pool["payloads"], [e["env"] for e in pool["envs"]], pool["auths"], pool["roots"], pool["km"], pool["pkg"], pool["odd"]]
 
 
 # ---- (3) schedules ---------------------------------------------------------------------
